@@ -9,10 +9,13 @@ import (
 	"io"
 	"os"
 	"runtime"
+	"sort"
 	"strconv"
 	"strings"
 	"sync"
 	"time"
+
+	"ssvharness/internal/common"
 
 	"github.com/database64128/shadowsocks-go/httpproxy"
 	"github.com/database64128/shadowsocks-go/netio"
@@ -496,6 +499,33 @@ func runOrigin(c *Case, oc netio.Conn, obs *Obs, obsMu *sync.Mutex) {
 			return false
 		}
 		send := func(k, j int, b []byte) bool {
+			if c.OriginMode == "split" && len(b) > 3 {
+				// several writes: one cut inside the head, one or two inside the body
+				rr := common.NewRng(c.SplitSeed ^ uint64(k*64+j+1)*0x9e3779b97f4a7c15)
+				headEnd := bytes.Index(b, []byte("\r\n\r\n"))
+				if headEnd < 1 {
+					headEnd = len(b) - 1
+				}
+				cuts := []int{rr.Range(1, headEnd)}
+				if rr.Bool() {
+					cuts = append(cuts, min(headEnd+rr.Range(1, 4), len(b)-1))
+				}
+				for n := rr.Range(0, 2); n > 0 && len(b)-headEnd-4 > 2; n-- {
+					cuts = append(cuts, headEnd+4+rr.Intn(len(b)-headEnd-4))
+				}
+				sort.Ints(cuts)
+				pos := 0
+				for _, cut := range cuts {
+					if cut <= pos || cut >= len(b) {
+						continue
+					}
+					if _, err := oc.Write(b[pos:cut]); err != nil {
+						return false
+					}
+					pos = cut
+				}
+				b = b[pos:]
+			}
 			if _, err := oc.Write(b); err != nil {
 				return false
 			}
@@ -538,6 +568,37 @@ func runOrigin(c *Case, oc netio.Conn, obs *Obs, obsMu *sync.Mutex) {
 					rcond.Wait()
 				}
 				rmu.Unlock()
+			}
+			if c.OriginMode == "coalesce" && k == 0 && c.OriginHold > 1 {
+				// ONE write with everything the origin has to say to the first OriginHold requests
+				type seg struct{ k, j, end int }
+				var batch []byte
+				var segs []seg
+				for kk := 0; kk < c.OriginHold && c.FirstFwd+kk < len(c.Scripts); kk++ {
+					m := ""
+					obsMu.Lock()
+					if kk < len(obs.Origin) {
+						m, _, _ = strings.Cut(obs.Origin[kk].Line, " ")
+					}
+					obsMu.Unlock()
+					for jj, p := range c.Scripts[c.FirstFwd+kk].Resps {
+						batch = append(batch, p.wire(m)...)
+						segs = append(segs, seg{kk, jj, len(batch)})
+					}
+				}
+				n, err := oc.Write(batch)
+				obsMu.Lock()
+				for _, sg := range segs {
+					if sg.end <= n {
+						obs.OriginSent = append(obs.OriginSent, [2]int{sg.k, sg.j})
+					}
+				}
+				obsMu.Unlock()
+				if err != nil {
+					return
+				}
+				k = c.OriginHold - 1
+				continue
 			}
 			for ; j < len(s.Resps); j++ {
 				b := s.Resps[j].wire(method)
